@@ -5,7 +5,7 @@ import re
 
 from .. import AnalysisError
 from ..cfg import ALL_KINDS, NORMAL_KINDS, iter_own
-from ..lib import attr_stores, dominated_by, guard_forms, key_of, norm, render, type_is
+from ..lib import bound_from, inlined, attr_stores, dominated_by, guard_forms, key_of, norm, render, type_is
 from ..report import describe, rule
 from .c01 import _must_pass, _try_append_test
 
@@ -40,7 +40,7 @@ def c07_1(ctx, r):
                     "an empty batch can be handed to the HPC (a node is allocated for nothing and a batch index is consumed)", "Every batch handed to the HPC contains at least one ... job",
                     guards=sorted(("" if p else "not ") + f for f, p in forms))
             a = s.node.args
-            r.check(len(a) == 3 and ctx.src(a[2]) == "batch", "the batch submitted is the one just built", key_of(fn, "which batch"), s.loc, f"_submit_batch receives {ctx.src(a[2]) if len(a) > 2 else None}")
+            r.check(len(a) == 3 and bound_from(ctx, fn, a[2], n, f"{HS}._make_batch", 0), "the batch submitted is the one just built", key_of(fn, "which batch"), s.loc, f"_submit_batch receives {ctx.src(a[2]) if len(a) > 2 else None}")
 
 
 @rule(P, "C07.2", "T2+T13", "count limit: the ready flag is raised at per-node-batch-size and tested before the next append", min_obligations=4)
@@ -158,7 +158,9 @@ def c07_3(ctx, r):
             r.check(f2 is init, f"{attr} set only in the constructor", key_of(f2, f"writes {attr}"), f2.loc(n), f"{f2.short} changes {attr}")
     walltime_parse(ctx, r, "C07.3")
     gw = ctx.fn("SubmitterParams.get_wall_time", "C07.3")
-    r.check("walltime" in ctx.src(gw.node) and "_to_timedelta(wall_time)" in ctx.src(gw.node), "get_wall_time parses the group's walltime", key_of(gw, "walltime"), gw.loc(), "get_wall_time no longer derives from hpc.walltime")
+    gwr = [x for x in ctx.cfg(gw).nodes if x.kind == "stmt" and isinstance(x.ast, ast.Return) and x.ast.value is not None]
+    gwt = [inlined(ctx, gw, x.ast.value, x) for x in gwr]
+    r.check(any(t.startswith("_to_timedelta(getattr(self.hpc_config.hpc,'walltime'") for t in gwt if t), "get_wall_time parses the group's walltime", key_of(gw, "walltime"), gw.loc(), "get_wall_time no longer derives from hpc.walltime")
 
 
 
@@ -240,7 +242,9 @@ def c07_4(ctx, r):
                     "all its jobs belong to one submission group", guards=sorted(("" if p else "not ") + f for f, p in cc["conds"]))
         # the job whose group is read is the configuration job of the candidate (looked up by the status job's name)
         src = ctx.src(fn.node).replace(" ", "")
-        r.check("self._config.get_job(job.name)" in src, f"{fn.short}: the configuration job is looked up by the status job's name", key_of(fn, "lookup"), fn.loc(), "group membership is read from a different job")
+        loopvars = {ctx.src(x.target) for x in ast.walk(fn.node) if isinstance(x, (ast.For, ast.comprehension))}
+        mlook = re.findall(r"self\._config\.get_job\((\w+)\.name\)", src)
+        r.check(bool(mlook) and all(m in loopvars for m in mlook), f"{fn.short}: the configuration job is looked up by the status job's name", key_of(fn, "lookup"), fn.loc(), "group membership is read from a different job")
 
 
 @rule(P, "C07.5", "T8", "one submission-group object flows from candidate selection to the interface that writes and submits the script", min_obligations=9)
@@ -274,20 +278,29 @@ def c07_5(ctx, r):
         a = ctx.arg_for(s, crs, g)
         r.check(isinstance(a, ast.Name) and a.id == g, "the run script is written for the same group", key_of(mk, "group to _create_run_script"), s.loc, f"receives {ctx.src(a) if a is not None else None}")
         c = ctx.arg_for(s, crs, "config_file")
-        r.check(isinstance(c, ast.Name) and c.id == "new_config_file", "the run script runs the batch's own config file", key_of(mk, "config to run script"), s.loc, f"config_file={ctx.src(c) if c is not None else None}")
+        ddx = [s3 for s3 in ctx.sites(mk, short="utils.dump_data")]
+        r.check(isinstance(c, ast.Name) and len(ddx) == 1 and len(ddx[0].node.args) > 1 and isinstance(ddx[0].node.args[1], ast.Name) and c.id == ddx[0].node.args[1].id, "the run script runs the batch's own config file", key_of(mk, "config to run script"), s.loc, f"config_file={ctx.src(c) if c is not None else None}")
     ahs = ctx.cls("AsyncHpcSubmitter")
     init = ahs.methods["__init__"]
     for s in [s for s in ctx.cg.sites_in(mk) if s.constructs == ahs.qual]:
         a = ctx.arg_for(s, init, g)
         r.check(isinstance(a, ast.Name) and a.id == g, "the batch object holds the same group", key_of(mk, "group to AsyncHpcSubmitter"), s.loc, f"receives {ctx.src(a) if a is not None else None}")
         rs = ctx.arg_for(s, init, "run_script")
-        r.check(isinstance(rs, ast.Name) and rs.id == "run_script", "and the run script just written", key_of(mk, "run script"), s.loc, f"run_script={ctx.src(rs) if rs is not None else None}")
+        crs_sites = ctx.sites(mk, short=f"{HS}._create_run_script")
+        wrote = crs_sites[0].node.args[1] if crs_sites and len(crs_sites[0].node.args) > 1 else None
+        r.check(isinstance(rs, ast.Name) and isinstance(wrote, ast.Name) and rs.id == wrote.id, "and the run script just written", key_of(mk, "run script"), s.loc, f"run_script={ctx.src(rs) if rs is not None else None}")
         dd = ctx.arg_for(s, init, "dry_run")
         r.check(isinstance(dd, ast.Name) and dd.id == "dry_run", "and the dry-run flag", key_of(mk, "dry_run to AsyncHpcSubmitter"), s.loc, f"dry_run={ctx.src(dd) if dd is not None else None}")
     # same file name for dump_data and the run script's argument
     dd = [s for s in ctx.sites(mk, short="utils.dump_data")]
-    r.check(len(dd) == 1 and ctx.src(dd[0].node.args[1]) == "new_config_file" and ctx.src(dd[0].node.args[0]) == "config", "config_batch_N.json holds the batch's config", key_of(mk, "dump"), mk.loc(), "the batch config is not dumped to new_config_file")
-    okj = any(isinstance(n, ast.Assign) and ctx.src(n.targets[0]).replace("'", '"') == 'config["jobs"]' and ctx.src(n.value) == "jobs" for n in iter_own(mk.node))
+    CFGV = dd[0].node.args[0].id if len(dd) == 1 and dd[0].node.args and isinstance(dd[0].node.args[0], ast.Name) else None
+    cdef = None
+    if CFGV:
+        for n in ctx.nodes_of(mk, dd[0].node):
+            ud = ctx.rd(mk).unique_def(n, CFGV)
+            cdef = ctx.src(ud[1]) if ud and isinstance(ud[1], ast.AST) else None
+    r.check(CFGV is not None and cdef == "copy.copy(self._base_config)", "config_batch_N.json holds the batch's config", key_of(mk, "dump"), mk.loc(), "the batch config is not dumped to new_config_file")
+    okj = any(isinstance(n, ast.Assign) and CFGV and ctx.src(n.targets[0]).replace("'", '"') == f'{CFGV}["jobs"]' and ctx.src(n.value) == "jobs" for n in iter_own(mk.node))
     r.check(okj, "config['jobs'] = the batch's jobs", key_of(mk, "jobs"), mk.loc(), "config['jobs'] is not set to the batch's jobs")
     # AsyncHpcSubmitter stores and uses the group's name; HpcManager picks the interface by that name
     st = [ctx.stmt_of(init, n) for f2, n, attr, t, kind in attr_stores(ctx, {"_submission_group"}) if f2 is init]
@@ -309,7 +322,10 @@ def c07_5(ctx, r):
     hmc = [s for s in ctx.cg.sites_in(hsi) if (s.constructs or "").endswith(".HpcManager")]
     r.check(len(hmc) == 1 and hmc[0].node.args and ctx.src(hmc[0].node.args[0]) == "self._submission_groups", "HpcManager is constructed from that lookup", key_of(hsi, "HpcManager groups"), hsi.loc(), "HpcManager is constructed from a different set of groups")
     hi = ctx.fn("HpcManager.__init__", "C07.5")
-    oki = any(isinstance(n, ast.Assign) and ctx.src(n.targets[0]) == "self._intfs[name]" and "group.submitter_params.hpc_config" in ctx.src(n.value) for n in iter_own(hi.node))
+    oki = False
+    for lp in [x for x in iter_own(hi.node) if isinstance(x, ast.For) and isinstance(x.target, ast.Tuple) and len(x.target.elts) == 2 and ctx.src(x.iter).endswith(".items()")]:
+        kn, gn = ctx.src(lp.target.elts[0]), ctx.src(lp.target.elts[1])
+        oki = oki or any(isinstance(n, ast.Assign) and ctx.src(n.targets[0]) == f"self._intfs[{kn}]" and f"{gn}.submitter_params.hpc_config" in ctx.src(n.value) for n in ast.walk(lp))
     r.check(oki, "each group's interface is built from that group's hpc_config", key_of(hi, "interfaces"), hi.loc(), "HpcManager builds interfaces from something other than each group's hpc_config")
 
 
@@ -408,7 +424,8 @@ def c07_8(ctx, r):
     okre = any(isinstance(n, ast.Constant) and n.value == "batch_(\\d+)\\.json" for n in iter_own(cli.node))
     mk = ctx.fn(f"{HS}._make_async_submitter", "C07.8")
     src_mk = ctx.src(mk.node).replace('"', "'")
-    okw = "_batch_{self._batch_index}" in src_mk and ".replace('.json', f'{suffix}.json')" in src_mk
+    msuf = re.search(r"(\w+) = f'_batch_\{self\._batch_index\}'", src_mk)
+    okw = bool(msuf) and (".replace('.json', f'{" + msuf.group(1) + "}.json')") in src_mk
     r.check(okre and okw, "writer names config_batch_<N>.json; reader parses batch_(\\d+).json", key_of(cli, "batch id agreement"), cli.loc(), "the batch config file name and the pattern run-jobs parses no longer agree")
 
 
@@ -464,3 +481,39 @@ def c07_10(ctx, r):
     from .c12 import c12_3
 
     c12_3(ctx, r)
+
+
+@rule(P, "C07.11", "T8", "the group check never copies one group's options onto another (each group keeps its own run options)", min_obligations=2)
+def c07_11(ctx, r):
+    """check_submission_groups may normalise a group's parameters, but every value it stores into a group must have been
+    read from that same group: a flow first_group -> setattr(group, ...) silently replaces the later groups' dry_run /
+    verbose / distributed_submitter / monitor options."""
+    fn = ctx.fn("JobConfiguration.check_submission_groups", "C07.11")
+    n = 0
+    for lp in [x for x in iter_own(fn.node) if isinstance(x, ast.For) and render(ctx, fn, x.iter) in ("<JobConfiguration.submission_groups>", "<JobConfiguration._submission_groups>")]:
+        gv = ctx.src(lp.target)
+        for c in ast.walk(lp):
+            if isinstance(c, ast.Call) and ctx.src(c.func) == "setattr" and len(c.args) == 3:
+                n += 1
+                tgt_root = root_name_of(c.args[0])
+                val = c.args[2]
+                src_roots = set()
+                for nd in ctx.nodes_of(fn, c):
+                    e = ctx.guards(fn).expand(val, nd) if isinstance(val, ast.Name) else val
+                    for x in ast.walk(e):
+                        if isinstance(x, ast.Call) and ctx.src(x.func) == "getattr" and x.args:
+                            src_roots.add(root_name_of(x.args[0]))
+                        elif isinstance(x, ast.Attribute):
+                            src_roots.add(root_name_of(x))
+                ok = tgt_root == gv and src_roots <= {gv}
+                r.check(ok, f"setattr on `{gv}` stores a value read from `{gv}`", key_of(fn, f"group option copied from {sorted(src_roots - {gv})}"), fn.loc(c),
+                        f"`{ctx.src(c)}` stores into group `{tgt_root}` a value read from {sorted(src_roots)}: the later groups lose their own run options (e.g. dry_run, verbose, distributed_submitter) - "
+                        "their batches are submitted / dry-run / scripted with the first group's settings", "submitted with that group's HPC parameters and run options")
+    if n < 2:
+        raise AnalysisError("C07.11", f"only {n} setattr normalisations found in check_submission_groups")
+
+
+def root_name_of(e):
+    while isinstance(e, (ast.Attribute, ast.Subscript, ast.Call)):
+        e = e.func if isinstance(e, ast.Call) else e.value
+    return e.id if isinstance(e, ast.Name) else None
